@@ -1,16 +1,32 @@
 """C02 - explicitly conflicting transactions and methods never run together."""
 
-from . import core
+from . import core, core2, core3
+
+M = core.MANAGER
 
 
 def check(ctx):
-    core.cg_priority_passthrough(ctx, "C02")  # includes add_conflict record
+    core.cg_priority_passthrough(ctx, "C02")  # includes what add_conflict records
     core.mgr_relation_copy(ctx, "C02")
     core.cg_relation_lifting(ctx, "C02")
     core.cg_transactions_exclusive(ctx, "C02")
+    core3.exclusive_with(ctx, "C02")
     core.cg_symmetric_insertion(ctx, "C02")
-    core.cg_implicit_edges(ctx, "C02")
-    core.cg_priority_edges(ctx, "C02")
+    core2.sched_run_definitions(ctx, "C02", want_equiv=False)
+    core2.mgr_scheduler_per_component(ctx, "C02")
+    core3.cg_self_pair(ctx, "C02")
 
 
-MUTANTS = []
+MUTANTS = [
+    ("add-conflict-records-no-conflict", core.TBASE, "RelationBase(end=end, priority=priority, conflict=True, silence_warning=self.owner != end.owner)", "RelationBase(end=end, priority=priority, conflict=priority != Priority.UNDEFINED, silence_warning=self.owner != end.owner)"),
+    ("relation-copy-drops-conflict", M, 'RelationBase(**{**dataclass_asdict(relation), "end": relation.end._body})', 'RelationBase(**{**dataclass_asdict(relation), "end": relation.end._body, "conflict": False})'),
+    ("lifting-only-first-caller", M, "            for trans_start in method_map.transactions_for(start):\n                for trans_end in method_map.transactions_for(end):", "            for trans_start in list(method_map.transactions_for(start))[:1]:\n                for trans_end in method_map.transactions_for(end):"),
+    ("conflict-flag-ignores-relation", M, "conflict = relation.conflict and not TransactionManager._transactions_exclusive(", "conflict = relation.conflict and TransactionManager._transactions_exclusive("),
+    ("exclusive-default-true", M, "            if tm1.ctrl_path.exclusive_with(tm2.ctrl_path):\n                return True\n\n        return False", "            if tm1.ctrl_path.exclusive_with(tm2.ctrl_path):\n                return True\n\n        return len(tms1) > 1"),
+    ("exclusive-on-any-prefix", M, "if tm1.ctrl_path.exclusive_with(tm2.ctrl_path):", "if tm1.ctrl_path.is_prefix(tm2.ctrl_path):"),
+    ("relations-pruned-by-priority", M, "if relation.end in method_map.methods_and_transactions  # prune relations with uncalled methods", "if relation.end in method_map.methods_and_transactions and relation.priority != Priority.UNDEFINED"),
+    ("asymmetric-edge", M, "                cgr[begin].add(end)\n                cgr[end].add(begin)", "                cgr[end].add(begin)"),
+    ("edges-only-with-priority", M, "            if conflict:\n                cgr[begin].add(end)", "            if conflict and priority != Priority.UNDEFINED:\n                cgr[begin].add(end)"),
+    ("eager-filter-inverted", core.SCHED, "for j in range(k) if ccl[j] in gr[transaction]", "for j in range(k) if ccl[j] not in gr[transaction]"),
+    ("one-scheduler-only", M, "*[self.cc_scheduler(method_map, cgr, cc, porder) for cc in ccs]", "*[self.cc_scheduler(method_map, cgr, cc, porder) for cc in ccs[:1]]"),
+]
